@@ -153,7 +153,20 @@ def sequence(rng, contract=True, maxlen=10, kinds='sif'):
             bound += {'s': len(v) + 2, 't': len(v) // 2, 'z': 0}.get(k, 330 if k in ('f', 'lf') or k[0] == 'F' else 24)
         z = bytes.fromhex(items.pop().split('=', 1)[1]) if items[-1].startswith('z=') else b''
         items.append('z=' + hx(z + b';' * bound))
-    return f"R {src} {rng.choice(START)} {'print' if pm else 'show'} " + ' '.join(items)
+    mode = (rng.choice(['print', 'print', 'split', 'join']) if pm else 'show')
+    return f"R {src} {rng.choice(START)} {mode} " + ' '.join(items)
+
+def width_op(rng):
+    """an Int under %[0]<width><mod><conv> — outside the property (correspondence; the oracle where the width is harmless)"""
+    m = rng.choice(list(IMODS)); c = rng.choice(ICONVS); wbits = IMODS[m]; signed = c in 'di'
+    n = rint_width(rng, wbits, signed) if rng.random() < 0.8 else rint(rng)
+    r = rng.random()
+    if r < 0.5: w = rng.randrange(1, 25)
+    elif r < 0.8: w = rng.choice([20, 22, 24, 30, 40])      # never shorter than the text: harmless unless zero-padded under %i
+    else: w = rng.randrange(1, 6)
+    z = ''
+    if rng.random() < 0.4: z = ' z=' + hx(rng.choice([b';', b' ', b',', b'\n5', b'x', b'7', b'-']))
+    return f"W {rng.choice('SF')} {rng.choice(START)} {rng.choice('01')} {w} {m}{c} {n}{z}"
 
 def int_text(rng):
     ws = rng.choice([b'', b'', b' ', b'\t\n ', b'\x0b\x0c\r'])
@@ -224,7 +237,7 @@ class C15(Spec):
                  'delimiters, the reader\'s control-flow flag, the arms of the integer branch and the double/float test regenerated from the source each '
                  'run; differential check against the real library (String and File sinks) with a direct C oracle')
     level_text = ('Theorems C15_string_roundtrip / C15_int_roundtrip / C15_intspec_roundtrip / C15_sequence_roundtrip / C15_format_roundtrip / C15_float_consumed / '
-                  'C15_float_value / C15_float_within / C15_float_e_within / C15_float_items: for every NUL-free byte string, every int64 under %$ and under each of the 54 '
+                  'C15_float_value / C15_float_within / C15_float_e_within / C15_float_e_narrow_partial / C15_float_items / C15_calls_compose: for every NUL-free byte string, every int64 under %$ and under each of the 54 '
                   'specifications %[hh|h|l|ll|j|z|t|q][d|i|o|u|x|X], every finite double under %$ and %[l][f|F|e|E|g|G], and every sequence of them with '
                   'separators, written at every start position of a String or a File, the model of look_from / scan_from_with reads back exactly the value '
                   'that the model of show_to / print_to_with wrote — for an Int under a narrow specification C\'s conversion of the value to the type the '
@@ -241,12 +254,15 @@ class C15(Spec):
                   'proved (C15_float_value, C15_float_within; the former def C15_float_value_statement is now a theorem). Float under %f / %F without l: known finding '
                   'KF-C15-float-spec-narrow (scan_from_with stores through a float): refuted for 123456789.123456 and 1.5e300 (C15_float_narrow_refuted), proved for '
                   'every double that is a float value (C15_float_narrow_partial). Float under %le / %lE: consumed length, position and numeric closeness (same sign, finite, within 1e-6 relative: C15_float_e_within) proved; '
-                  'that the text is the same under %e %E %g %G, and any value statement for %g %G, NOT proved (C15_float_sci_statement is a def) — the driver evaluates it on every such item and the oracle checks it with libc. '
+                  'that the text is the same under %e %E %g %G, and any value statement for %g %G and for %e %E without l, NOT proved (C15_float_sci_statement is a def) — the driver evaluates it on every such item and the oracle checks it with libc. '
+                  'Several calls: C15_calls_compose (one call = several calls, both directions). Failed reads: fmt_buf leak and clobbered String target refuted on witnesses (proposed findings), success releases the buffer (proved). '
+                  'Field width / 0 flag: refuted on %08li / %5li (C15_width_refuted); harmless widths checked by the oracle, C15_width_safe_statement NOT proved. '
                   'Trusted: Lean kernel; the model of scanf (integer conversions, floating conversions into double and float, "%c", literal matching, "%n") and of printf '
                   '(integer conversions, "%f" "%e" "%g", "%c") — validated against glibc by the correspondence runs, not proved; translate/g_text.py; harness/driver '
                   'comparison (testing). Outside: flags, width and precision inside a specification, %a, non-finite doubles, reading at a position beyond the end of a String.')
-    rule = ('op files of round trips (R: values and separators written at a start position of a String / File sink by show_to or by one print_to_with, '
-            'then read back by look_from / one scan_from_with) and of reads of arbitrary text (K, also through every integer / floating specification). '
+    rule = ('op files of round trips (R: values and separators written at a start position of a String / File sink by show_to, by one print_to_with or by one '
+            'print_to_with per item, then read back by look_from / one scan_from_with / one scan_from_with per item: modes show, print, split, join), of reads of '
+            'arbitrary text (K, also through every integer / floating specification) and of Ints under a field width / the 0 flag (W, outside the property). '
             'Generators: every byte value 1..255 alone and in one string, '
             'random strings biased to quotes, backslashes, escape letters, control and high bytes, lengths 0..20000; boundary and random int64, and for each of the '
             '54 integer specifications boundary and random values of the type it names (and, outside the property, values beyond it: C\'s conversion is expected); doubles from '
@@ -265,7 +281,11 @@ class C15(Spec):
                    'a separator read from a File that ends in white space is not followed by white space (scanf would swallow it)',
                    'separators are NUL-free text without %, or a literal percent written and read as %% (fixed by 619a9b3); start position <= length of the String read from',
                    'a Float written under a floating specification without the l modifier is the value of a float: generated inputs stay out of the territory of known finding KF-C15-float-spec-narrow (witness corpus/kf_c15_float_spec_narrow.ops)',
-                   'specifications carry no flags, width or precision; %a / %A and the L modifier are outside the model',
+                   'specifications carry no flags, width or precision: with them the same format does not read back what it wrote, by the rules of scanf (%08li writes -42 as -0000042 and reads -34; %5li reads 12345 of 1234567: C15_width_refuted, op W, corpus/text_width.ops); a harmless width (>= the text written, no zero padding under %i) is checked by the oracle only (C15_width_safe_statement, not proved); + - # flags and a precision make the read raise FormatError (not modelled)',
+                   '%a / %A (named by KF-C15-float-spec-narrow for the l-less form; %la would read back every double exactly) and the L modifier are outside the model: no theorem, no generated case',
+                   'targets of a read and sinks are heap objects made by new: look_from into a stack String ($S) raises ValueError from String_Clear (String.c:195, the refusal C19 speaks about) — not a round-trip question, not generated',
+                   'reads that FAIL are outside the round trip; what they leave behind is recorded: fmt_buf stays allocated (proposed finding KF-C15-scan-fmtbuf-leak, C15_scan_leak_refuted; a read that succeeds frees it: C15_scan_leak_partial), a String target is emptied / half filled (proposed finding KF-C15-look-clobbers-target, C15_failed_look_clobbers_refuted); the K ops generated here (damaged text) are compared with the model, target value included, but carry no oracle',
+                   'input objects: a heap String or one File; never stdin (scan / scanln / look), never a position beyond the end of a String',
                    'LC_ALL=C; x86-64 glibc (long = int64_t, char signed)')
     def cases(self, rng, tier, boost=1):
         quick = tier == 'quick'
@@ -304,6 +324,8 @@ class C15(Spec):
         chunk('adv', [sequence(rng, False, 6) for _ in range(n3)])
         n4 = (75000 if quick else 550000) * boost
         chunk('look', [look_op(rng) for _ in range(n4)])
+        # (d') a field width / the 0 flag inside an integer specification (outside the property)
+        chunk('width', [width_op(rng) for _ in range((6000 if quick else 60000) * boost)])
         # (e) long strings
         lines = []
         for _ in range((6 if quick else 60) * boost):
@@ -328,6 +350,9 @@ class C15(Spec):
             elif f[1] == 'K':
                 d = dict(x.split('=', 1) for x in f[2:] if '=' in x)
                 if d.get('r') != '0': out.add(hashlib.md5(op.encode()).hexdigest())
+            elif f[1] == 'W':
+                d = dict(x.split('=', 1) for x in f[2:] if '=' in x)
+                if d.get('r', '').isdigit(): out.add(hashlib.md5(op.encode()).hexdigest())
         return out
     def stats(self, case, c_out, m_out, acc):
         ops = [l for l in case.lines if l and not l.startswith('#')]
@@ -342,11 +367,17 @@ class C15(Spec):
                 if t[2] != '0': acc['start_nonzero'] = acc.get('start_nonzero', 0) + 1
             elif t[0] == 'K':
                 acc['looks_' + t[3]] = acc.get('looks_' + t[3], 0) + 1
+            elif t[0] == 'W':
+                acc['width_ops'] = acc.get('width_ops', 0) + 1
         for l in core.lines_with('O ', c_out):
             if 'Error' in l: acc['exceptions'] = acc.get('exceptions', 0) + 1
         for l in core.lines_with('O ', m_out):
             if 'unmodelled' in l: acc['unmodelled_by_the_libc_model'] = acc.get('unmodelled_by_the_libc_model', 0) + 1
         for l in core.lines_with('M ', m_out):
+            if 'wsafe=' in l:
+                if 'wsafe=1' in l: acc['width_harmless'] = acc.get('width_harmless', 0) + 1
+                if 'wrt=0' in l: acc['width_not_read_back'] = acc.get('width_not_read_back', 0) + 1
+                continue
             if 'contract=1' in l: acc['in_contract'] = acc.get('in_contract', 0) + 1
             else: acc['out_of_contract'] = acc.get('out_of_contract', 0) + 1
             if 'rt=1' in l: acc['model_roundtrip_ok'] = acc.get('model_roundtrip_ok', 0) + 1
@@ -357,6 +388,8 @@ class C15(Spec):
         prev = None; k = -1
         for l in ms:
             if l.startswith('O '): k += 1; prev = l
+            elif 'wsafe=1' in l and 'wrt=0' in l:      # C15_width_safe_statement (not proved) fails in the model
+                return f'model does not read back an Int under a harmless field width `{ops[k] if k < len(ops) else "?"}`: {prev}'
             elif 'contract=1' in l and 'rt=0' in l:   # contract=2 (known-finding territory) and contract=0 are not claims
                 return f'model does not round-trip the in-contract op `{ops[k] if k < len(ops) else "?"}`: {prev}'
         return None
